@@ -191,6 +191,7 @@ def view_step_terms(case, with_reload=True, with_cut=True, expect_fail=False):
     ViewExec.vtstep; every step additionally carries the height-log dumps."""
     out = []
     reason = None
+    prev_dump = {"a": case["init"]["a"], "b": case["init"]["b"]}
     for st in case["steps"]:
         op, res = st["op"], st["res"]
         k = op[0]
@@ -292,7 +293,12 @@ def view_step_terms(case, with_reload=True, with_cut=True, expect_fail=False):
         same = st.get("hl_same") or {}
         ha = "None" if same.get("a") else "(Some %s)" % hl_term(hl["a"])
         hb = "None" if same.get("b") else "(Some %s)" % hl_term(hl["b"])
-        out.append("(%s, %s, %s, %s, %s)" % (t, obs_term(st["a"], "a"), obs_term(st["b"], "b"), ha, hb))
+        # a party dump the trace wrote as "=" is the SAME object as in the previous step
+        # (chan_common.expand_row shares it): emit None, ViewExec keeps the previous one
+        oa = "None" if st["a"] is prev_dump["a"] else "(Some %s)" % obs_term(st["a"], "a")
+        ob = "None" if st["b"] is prev_dump["b"] else "(Some %s)" % obs_term(st["b"], "b")
+        prev_dump = {"a": st["a"], "b": st["b"]}
+        out.append("(%s, %s, %s, %s, %s)" % (t, oa, ob, ha, hb))
     return out, len(out), reason
 
 
